@@ -148,6 +148,8 @@ pub enum Domain {
     TinyNormal,
     /// positive prices in an enormous unit: 1e304 .. 5e307 (sums of three stay finite, 100*x does not)
     Huge,
+    /// scalar prices up to 1.7e308 (the top binade: 2*x overflows)
+    HugeScalar,
 }
 
 pub const N_REGIMES: usize = 11;
@@ -248,6 +250,11 @@ pub fn expand(domain: Domain, regime: usize, base: f64, aux: f64, noise: &[f64])
                 *v = v.abs().clamp(base * 1e-3, 5e307);
             }
         }
+        Domain::HugeScalar => {
+            for v in out.iter_mut() {
+                *v = v.abs().clamp(base * 1e-3, 1.7e308);
+            }
+        }
         Domain::TinyPositive | Domain::TinyNormal => {
             for v in out.iter_mut() {
                 *v = v.abs().clamp(base * 1e-3, base * 1e7);
@@ -310,6 +317,7 @@ fn base_strategy(domain: Domain) -> BoxedStrategy<f64> {
         Domain::TinyAnySign => prop_oneof![Just(1e-305), Just(4e-303)].boxed(),
         Domain::TinyNormal => prop_oneof![Just(1e-300), Just(2e-303), Just(5e-304)].boxed(),
         Domain::Huge => prop_oneof![Just(2e306), Just(5e305), Just(1e304)].boxed(),
+        Domain::HugeScalar => prop_oneof![Just(4e307), Just(1e307), Just(2.5e307)].boxed(),
         Domain::PositiveGrid => prop_oneof![
             12 => (-6i32..=20).prop_map(|k| 2f64.powi(k)),
             1 => Just(2f64.powi(-70)),
@@ -332,7 +340,7 @@ pub fn stream(domain: Domain, min_len: usize, max_len: usize) -> BoxedStrategy<S
         .prop_map(move |(regime, base, aux, noise)| {
             let regime = if domain != Domain::AnySign && (regime == 8 || regime == 9) { regime - 8 } else { regime };
             // spikes of 1e6x would leave the tiny range: use the walk instead
-            let regime = if matches!(domain, Domain::TinyPositive | Domain::TinyAnySign | Domain::TinyNormal | Domain::Huge) && (regime == 3 || regime == 2) { 0 } else { regime };
+            let regime = if matches!(domain, Domain::TinyPositive | Domain::TinyAnySign | Domain::TinyNormal | Domain::Huge | Domain::HugeScalar) && (regime == 3 || regime == 2) { 0 } else { regime };
             Stream { regime, vals: expand(domain, regime, base, aux, &noise) }
         })
         .boxed()
